@@ -15,6 +15,7 @@ import (
 	"time"
 
 	"github.com/Vedant9500/WTF/zz_verif/sim/simrand"
+	"github.com/Vedant9500/WTF/zz_verif/sim/simrt"
 	"pgregory.net/rapid"
 )
 
@@ -170,6 +171,31 @@ const distinctCap = 150000
 // source), execute each as a pure function of the case, aggregate coverage, and on a
 // violation leave the minimised case as a replay file. In replay mode it executes the
 // stored case once, without rapid.
+// scheduledOutcome runs a single-task case body as the first task of a cooperative run: goroutines the code under
+// test starts, the channels between them, its timers and the choices of its select statements are then decided by
+// the schedule vector of the case instead of by the Go runtime. With a code base that starts no goroutine the body
+// simply runs through.
+func scheduledOutcome(sched []uint16, body func() *Outcome) *Outcome {
+	var o *Outcome
+	rr := simrt.Run([]func(){func() { o = body() }}, sched, 50_000_000)
+	for _, pv := range rr.Panics {
+		panic(pv) // a crash of the code under test: counted by the runner
+	}
+	if rr.Deadlock {
+		return &Outcome{Harness: "the single-task case ended with every goroutine of the code under test blocked: " + rr.DeadlockInfo}
+	}
+	if rr.OverBudget {
+		return &Outcome{Harness: "step budget of the simulated run exceeded"}
+	}
+	if o != nil && rr.Spawned > 0 {
+		if o.Probes == nil {
+			o.Probes = map[string]int{}
+		}
+		o.Probes["sched.goroutines_started_by_code"] += rr.Spawned
+	}
+	return o
+}
+
 func runProperty[C any](t *testing.T, prop string, gen func(*rapid.T) C, run func(C) *Outcome) {
 	runPropertyEnum(t, prop, nil, gen, run)
 }
